@@ -88,10 +88,12 @@ Definition split_dot (s : string) : list string := map str_of (split_on "." (cha
 Definition starts_with_dollar (s : string) : bool := match s with String c _ => Ascii.eqb c "$" | _ => false end.
 Definition drop1 (s : string) : string := match s with String _ r => r | EmptyString => EmptyString end.
 
-(* GetNamespace: None = the current element, Some m = mark m *)
+(* GetNamespace: None = the current element ("$" and the reserved "$__current__"), Some m = mark m *)
 Definition namespace (path : string) : option string :=
   match split_dot path with
-  | p :: _ => if starts_with_dollar p then (if String.eqb (drop1 p) "" then None else Some (drop1 p)) else None
+  | p :: _ => if starts_with_dollar p
+              then (if String.eqb (drop1 p) "" || String.eqb (drop1 p) "__current__" then None else Some (drop1 p))
+              else None
   | [] => None
   end.
 
@@ -110,10 +112,24 @@ Definition json_path (path : string) : list string :=
 
 Fixpoint map_get (m : list (string * jv)) (k : string) : option jv :=
   match m with [] => None | (k', v) :: r => if String.eqb k k' then Some v else map_get r k end.
+(* github.com/bmeg/jsonpath get_key: a key of a map; through a list, the values of that key in the items that
+   have it (never an error); anything else (null, scalars) is an error *)
+Fixpoint get_key (v : jv) (k : string) : option jv :=
+  match v with
+  | JMap m => map_get m k
+  | JList l => Some (JList (flat_map (fun x => match get_key x k with Some y => [y] | None => [] end) l))
+  | _ => None
+  end.
 Fixpoint dig (v : jv) (path : list string) : option jv :=
   match path with
   | [] => Some v
-  | k :: r => match v with JMap m => match map_get m k with Some x => dig x r | None => None end | _ => None end
+  | k :: r => match get_key v k with Some x => dig x r | None => None end
+  end.
+(* maps only (a document store's dotted paths as Model/Mongo.v reads them) *)
+Fixpoint dig_map (v : jv) (path : list string) : option jv :=
+  match path with
+  | [] => Some v
+  | k :: r => match v with JMap m => match map_get m k with Some x => dig_map x r | None => None end | _ => None end
   end.
 
 (* an element as jsonpath sees it (DataElement.ToDict) *)
